@@ -504,6 +504,8 @@ class LSEMGaussianConditional(LConjugateFactorMGaussianConditional):
         Sigma: The covariance matrix of the conditional.
         Lambda: Information (precision) matrix of the Gaussians.
         ln_det_Sigma: Log determinant of the covariance matrix.
+        w0: Offsets :math:`w_{i,0}`. Filled from the first column of `W`; only passed explicitly when the object is
+            rebuilt from its own fields (`replace`, pytree unflattening), where `W` no longer carries that column.
 
     Raises:
         RuntimeError: If neither Sigma nor Lambda are provided.
@@ -515,6 +517,7 @@ class LSEMGaussianConditional(LConjugateFactorMGaussianConditional):
     Sigma: Float[Array, "1 Dy Dy"] = None
     Lambda: Float[Array, "1 Dy Dy"] = None
     ln_det_Sigma: Float[Array, "1"] = None
+    w0: Float[Array, "Dk"] = None
 
     def __post_init__(
         self,
@@ -529,8 +532,10 @@ class LSEMGaussianConditional(LConjugateFactorMGaussianConditional):
         else:
             self.Sigma, ln_det_Lambda = invert_matrix(self.Lambda)
             self.ln_det_Sigma = -ln_det_Lambda
-        self.w0 = self.W[:, 0]
-        self.W = self.W[:, 1:]
+        if self.w0 is None or self.W.shape[0] + self.W.shape[1] == self.M.shape[2] + 1:
+            # W still carries the offsets in its first column
+            self.w0 = self.W[:, 0]
+            self.W = self.W[:, 1:]
         self.update_phi()
 
     @property
